@@ -296,7 +296,7 @@ fn worker<I: Item>(sh: &Shared<I>, opts: &Opts, beat: &Beat, deadline: Instant) 
 
 /// Split an item's choice tree into at least `target` disjoint prefixes (breadth first).
 /// Returns (prefixes, leaves) where leaves are complete executions met during the expansion.
-fn expand<I: Item>(item: &I, target: usize) -> Vec<Vec<u16>> {
+fn expand<I: Item>(item: &I, ii: usize, target: usize, beat: &Beat) -> Vec<Vec<u16>> {
     let dev = item.cfg().dev;
     let mut queue: std::collections::VecDeque<Vec<u16>> = std::collections::VecDeque::new();
     let mut done: Vec<Vec<u16>> = Vec::new();
@@ -308,7 +308,16 @@ fn expand<I: Item>(item: &I, target: usize) -> Vec<Vec<u16>> {
             continue;
         }
         budget -= 1;
+        {
+            let mut c = beat.cur.lock().unwrap();
+            c.0 = ii;
+            c.1.clear();
+            c.1.extend_from_slice(&p);
+        }
+        beat.busy.store(true, Ordering::Relaxed);
         let eo = run_once(item, &p, false, false);
+        beat.busy.store(false, Ordering::Relaxed);
+        beat.count.fetch_add(1, Ordering::Relaxed);
         if eo.rec_len <= p.len() {
             // complete execution: a leaf task of its own
             done.push(p);
@@ -333,14 +342,54 @@ pub fn explore<I: Item>(items: &[I], opts: &Opts, on_hang: &(dyn Fn(&Found) + Sy
     let t0 = Instant::now();
     let deadline = t0 + Duration::from_secs_f64(opts.time_limit_s);
     // ---- task generation
+    // (runs on its own watched thread: the crate under test may hang in the very first execution)
     let mut tasks: Vec<(usize, Vec<u16>, (u16, u16))> = Vec::new();
-    for (ii, it) in items.iter().enumerate() {
-        let k: u16 = if it.cfg().dev != u32::MAX { 16 } else { 1 };
-        for p in expand(it, opts.split) {
-            for r in 0..k {
-                tasks.push((ii, p.clone(), (r, k)));
+    {
+        let beat = Arc::new(Beat { count: AtomicU64::new(0), cur: Mutex::new((0, Vec::new())), busy: AtomicBool::new(false) });
+        let mut hang: Option<Found> = None;
+        std::thread::scope(|s| {
+            let b2 = beat.clone();
+            let split = opts.split;
+            let h = std::thread::Builder::new()
+                .stack_size(16 << 20)
+                .spawn_scoped(s, move || {
+                    std::panic::set_hook(Box::new(|_| {}));
+                    let mut tasks: Vec<(usize, Vec<u16>, (u16, u16))> = Vec::new();
+                    for (ii, it) in items.iter().enumerate() {
+                        let k: u16 = if it.cfg().dev != u32::MAX { 16 } else { 1 };
+                        for p in expand(it, ii, split, &b2) {
+                            for r in 0..k {
+                                tasks.push((ii, p.clone(), (r, k)));
+                            }
+                        }
+                    }
+                    tasks
+                })
+                .unwrap();
+            let mut last = (beat.count.load(Ordering::Relaxed), Instant::now());
+            while !h.is_finished() {
+                std::thread::sleep(Duration::from_millis(5));
+                let c = beat.count.load(Ordering::Relaxed);
+                if c != last.0 || !beat.busy.load(Ordering::Relaxed) {
+                    last = (c, Instant::now());
+                } else if last.1.elapsed() > Duration::from_secs(opts.hang_secs) {
+                    let cur = beat.cur.lock().unwrap().clone();
+                    hang = Some(Found {
+                        item: cur.0,
+                        prop: 1,
+                        msg: format!("execution did not finish within {} s (deadlock or unbounded spin inside poll or a waker invocation)", opts.hang_secs),
+                        choices: cur.1.iter().map(|&c| (c, 0)).collect(),
+                        hang: true,
+                    });
+                    break;
+                }
             }
-        }
+            if let Some(hf) = &hang {
+                on_hang(hf);
+                std::process::exit(3);
+            }
+            tasks = h.join().unwrap();
+        });
     }
     // interleave tasks of different items so that early stops and load are spread
     let sh = Shared {
